@@ -29,7 +29,14 @@ def make_replay(prop, result, fo, seed):
     }
     found = False
     try:
-        if result["backend"] == "cbmc" or fo.get("search") == "c_api":
+        if fo.get("found"):
+            # the bounded exploration unit already holds the failing input
+            rec["failing_input"] = fo["found"]
+            rec["search"] = fo.get("search_log")
+            if fo.get("found_from"):
+                rec["failing_input_from"] = fo["found_from"]
+            found = True
+        elif result["backend"] == "cbmc" or fo.get("search") == "c_api":
             rp = None
             if result["backend"] == "cbmc":
                 import cbmc_backend
